@@ -26,6 +26,8 @@ type behav struct {
 	badExec   int    // >= 0: the block of that height passes Validate but cannot be applied
 	common    string // "", "none" or a token: forced answer to getHighestCommonBlock
 	force     string // "", "fast", "block": run that synchroniser directly instead of Executer.process
+	restart   bool   // C04SYNC: the requester node is restarted (new Chain / Executer over the same database) right before the synchronisation
+	syncing   bool   // C04SYNC: forced synchroniser: the Executer's syncying flag is set, as Executer.process does around syncer.Sync
 }
 
 func parseBehav(w []string) behav {
@@ -44,6 +46,13 @@ func parseBehav(w []string) behav {
 	}
 	b.common, _ = kvStr(w, "common")
 	b.force, _ = kvStr(w, "force")
+	// C04SYNC: options of the pseudo-property C04SYNC (c04sync.go)
+	if v, ok := kvInt(w, "restart"); ok && v == 1 {
+		b.restart = true
+	}
+	if v, ok := kvInt(w, "sy"); ok && v == 1 {
+		b.syncing = true
+	}
 	return b
 }
 
@@ -236,6 +245,13 @@ func runSyncOnce(c *chains, w []string) (out string, fails []corr.Fail) {
 	if err != nil {
 		return "setup-failed", []corr.Fail{fail("c19-setup", "requester: %v", err)}
 	}
+	if b.restart {
+		// C04SYNC: the usual situation of a node that synchronises: it was just started and has applied nothing yet
+		if err := q.Restart(); err != nil {
+			q.Close()
+			return "setup-failed", []corr.Fail{fail("c19-setup", "requester restart: %v", err)}
+		}
+	}
 	resp, err := newResponder(c, b, served)
 	if err != nil {
 		q.Close()
@@ -319,6 +335,19 @@ func runSyncOnce(c *chains, w []string) (out string, fails []corr.Fail) {
 		return "setup-failed", []corr.Fail{fail("c19-setup", "target: %v", err)}
 	}
 	sctx := &lsync.SyncContext{Ctx: context.Background(), Block: tcopy, FinalizedBlockHeader: finHeader, PeerID: resp.ID(), CurrentValidators: vals}
+	// C04SYNC: the context the Executer really builds (Executer.process calls createSyncContext itself; the forced
+	// synchronisers get the real one): its finalized block must be the block at the stored finalized height
+	if real, err := q.Exec.VerifC04CreateSyncContext(context.Background(), tcopy, resp.ID()); err != nil || real.FinalizedBlockHeader == nil {
+		fails = append(fails, fail("c04-sync-context-finalized-wrong", "createSyncContext failed: %v", err))
+	} else {
+		if fh := real.FinalizedBlockHeader; fh.Height != finBefore || !bytes.Equal(fh.ID, finHeader.ID) {
+			fails = append(fails, fail("c04-sync-context-finalized-wrong", "restart=%v: the sync context carries block %x at height %d as finalized block; the stored finalized height is %d (block %x)", b.restart, []byte(fh.ID), fh.Height, finBefore, []byte(finHeader.ID)))
+		}
+		if b.force != "" {
+			real.Ctx = context.Background()
+			sctx = real
+		}
+	}
 	syncer := q.Exec.VerifSyncer()
 	mode := "none"
 	switch {
@@ -335,6 +364,7 @@ func runSyncOnce(c *chains, w []string) (out string, fails []corr.Fail) {
 
 	before := chainIDs(q)
 	dumpBefore := q.DumpDB()
+	q.DrainEvents() // C04SYNC: drop what building the requester chain published
 
 	done := make(chan error, 1)
 	go func() {
@@ -343,16 +373,28 @@ func runSyncOnce(c *chains, w []string) (out string, fails []corr.Fail) {
 				done <- fmt.Errorf("panic: %v", r)
 			}
 		}()
-		switch b.force {
-		case "fast":
-			_, err := syncer.VerifC19FastSync(sctx)
-			done <- err
-		case "block":
-			_, err := syncer.VerifC19BlockSync(sctx)
-			done <- err
-		default:
-			done <- q.ProcessResult(target).Err
+		// C04SYNC: a forced synchroniser may run with the syncying flag set (sy=1)
+		exec := q.Exec
+		if b.force != "" && b.syncing {
+			exec.VerifC04SetSyncing(true)
 		}
+		var err error
+		func() {
+			defer func() {
+				if b.force != "" && b.syncing {
+					exec.VerifC04SetSyncing(false)
+				}
+			}()
+			switch b.force {
+			case "fast":
+				_, err = syncer.VerifC19FastSync(sctx)
+			case "block":
+				_, err = syncer.VerifC19BlockSync(sctx)
+			default:
+				err = q.ProcessResult(target).Err
+			}
+		}()
+		done <- err
 	}()
 	var syncErr error
 	select {
@@ -367,6 +409,8 @@ func runSyncOnce(c *chains, w []string) (out string, fails []corr.Fail) {
 	}
 
 	after := chainIDs(q)
+	// C04SYNC: event stream / finalized blocks oracle (c04sync.go)
+	fails = append(fails, checkSyncFinality(c, q, q.DrainEvents(), before, after, finBefore, mode, b)...)
 	banned := len(q.Conn.VerifC19BannedIPs()) > 0
 	temp, _ := q.TempBlocks()
 	tip := q.Tip().Header
